@@ -29,8 +29,9 @@ def long_docs(rnd, n):
     out = []
     for _ in range(n):
         line = rnd.choice(["12 34 115.", "7 8 9.", "410 55 113, 116."])
-        nl = rnd.randint(6, 12)
-        lines = [line if rnd.random() < 0.7 else rnd.choice(["99 1.", "3 44 5 66."]) for _ in range(nl)]
+        lines = []
+        while sum(len(x) + 1 for x in lines) < rnd.choice([105, 130, 170]):
+            lines.append(line if rnd.random() < 0.7 else rnd.choice(["99 1.", "3 44 5 66."]))
         plain = "\n".join(lines)
         src_lines = []
         for ln in lines:
@@ -150,7 +151,7 @@ def main(pid):
                "anns": mid["anns"], "output": mid.get("output")})
 
     # (C) long forced-alignment documents
-    docs = long_docs(rnd, 120 if thorough else 30)
+    docs = long_docs(rnd, 400 if thorough else 150)
     obs2 = vlib.impl_map("drv_annotate", "run_text", docs)
     fails, drifts = tlc_judge("Trace_Annotate", "Trace_Annotate.cfg", obs2, ev, "longdocs", chunk=400)
     total += len(obs2)
